@@ -10,8 +10,14 @@ the SPEC-side compute of the one-shot accumulation of all rows fed before that c
 fresh object is exported too and checked the same way; in Python it is compared bit for bit with the last compute() of the
 history on inputs whose running sums are exactly representable (no float tolerance in Python).
 """
+import atexit
+import json
 import math
 import os
+import select
+import subprocess
+import sys
+import traceback
 import warnings
 from fractions import Fraction
 
@@ -468,6 +474,98 @@ def exact_regime(case):
     return n * m * m < lim
 
 
+
+# ------------------------------------------------------------------------------------------------- isolated interpreter
+class _Worker:
+    """The real objects live in a child interpreter: the numba kernels index their accumulators without bounds checks, so
+    a state left in the wrong layout (e.g. a _compute that does not swap its axes back) makes the NEXT update write outside
+    its arrays.  That then kills the child, not the check, and the history on which it died is the failing input."""
+    TIMEOUT = 300
+    MAX_CRASHES = 8          # per phase (one kind's main pass / one shrinking round): afterwards cases are reported unrun
+
+    def __init__(self):
+        self.p = None
+        self.buf = b''
+        self.crashes = 0
+
+    def start(self):
+        tools = os.path.dirname(os.path.dirname(os.path.abspath(__file__)))
+        code = 'import sys; sys.path.insert(0, %r); from props import C01; C01._worker_main()' % tools
+        self.p = subprocess.Popen([sys.executable, '-c', code], stdin=subprocess.PIPE, stdout=subprocess.PIPE, env=dict(os.environ))
+        self.buf = b''
+
+    def stop(self):
+        if self.p is not None:
+            try:
+                self.p.kill()
+                self.p.wait(timeout=10)
+            except Exception:
+                pass
+            self.p = None
+
+    def new_phase(self):
+        self.crashes = 0
+
+    def _readline(self):
+        fd = self.p.stdout.fileno()
+        while b'\n' not in self.buf:
+            r, _, _ = select.select([fd], [], [], self.TIMEOUT)
+            if not r:
+                return None
+            chunk = os.read(fd, 1 << 16)
+            if not chunk:
+                return b''
+            self.buf += chunk
+        line, self.buf = self.buf.split(b'\n', 1)
+        return line
+
+    def call(self, case):
+        if self.crashes >= self.MAX_CRASHES:
+            return {'raised': 'ProcessCrashed', 'msg': f'not run: the interpreter running scared already died {self.crashes} times in this phase'}
+        if self.p is None or self.p.poll() is not None:
+            self.start()
+        try:
+            self.p.stdin.write((json.dumps(case) + '\n').encode())
+            self.p.stdin.flush()
+            line = self._readline()
+        except (BrokenPipeError, OSError):
+            line = b''
+        if line is None:
+            self.stop()
+            self.crashes += 1
+            return {'raised': 'Timeout', 'msg': f'no answer within {self.TIMEOUT} s'}
+        if not line:
+            rc = self.p.wait()
+            self.p = None
+            self.crashes += 1
+            return {'raised': 'ProcessCrashed', 'msg': f'the interpreter running scared died (exit status {rc}) while replaying this history '
+                    '(a kernel wrote outside its arrays?), or on memory corrupted by an earlier one'}
+        return json.loads(line)
+
+
+WORKER = _Worker()
+atexit.register(WORKER.stop)
+
+
+def _worker_main():
+    out = os.fdopen(os.dup(1), 'w')
+    os.dup2(2, 1)                       # anything the implementation prints goes to stderr, not into the protocol
+    for line in sys.stdin:
+        case = json.loads(line)
+        try:
+            res = run_case(case)
+        except HarnessError as e:
+            res = {'harness_error': str(e)}
+        except Exception as e:
+            res = {'raised': type(e).__name__, 'msg': str(e)[:200], 'tb': traceback.format_exc()[-600:]}
+        out.write(json.dumps(res) + '\n')
+        out.flush()
+
+
+def extra(ctx):
+    WORKER.stop()
+    return []
+
 # ------------------------------------------------------------------------------------------------- Coq literal
 KIND_COQ = {'cpa': 'KCpa', 'cpa_alt': 'KCpaAlt', 'dpa': 'KDpa', 'mia': 'KMia', 'tbuild': 'KTBuild', 'ttest': 'KTtest'}
 
@@ -545,7 +643,7 @@ class HistKind(Kind):
     case_type = 'bcase'
     check_fn = 'bcheck'
     explain_fn = 'bexpected'
-    shard = 24
+    shard = 12
     fam = 'cpa'
     jit = None            # None: numpy only (all fourteen signatures); 'base' / 'heavy': see signature_plan
 
@@ -561,6 +659,7 @@ class HistKind(Kind):
         return heavy if self.jit == 'heavy' else base
 
     def gen(self, rng, tier):
+        WORKER.new_phase()
         quick = tier == 'quick'
         sigs = self.sigs(tier)
         self._heavy = set(signature_plan(core.make_rng(RUN_SEED(), 'C01/signatures'), tier)[1])
@@ -606,7 +705,10 @@ class HistKind(Kind):
 
     # ------------------------------------------------------------------ implementation
     def run(self, case):
-        return run_case(case)
+        obs = WORKER.call(case)
+        if 'harness_error' in obs:
+            raise HarnessError(obs['harness_error'])
+        return obs
 
     def coq(self, case, obs):
         return coq_case(case, obs)
@@ -655,6 +757,7 @@ class HistKind(Kind):
 
     # ------------------------------------------------------------------ shrinking
     def shrink(self, case):
+        WORKER.new_phase()
         n, S, W = len(case['traces']), case['S'], case['W']
         splits, comps = case['splits'], case['computes']
         auto = case.get('auto')
